@@ -877,10 +877,14 @@ def read_find(fn):
     pre = {'self.pre_order'}
     node = [None]
 
+    alias = {}
+
     def ref(e):
         u = ast.unparse(e)
         if node[0] and u == node[0]:
             return '.node'
+        if isinstance(e, ast.Name) and e.id in alias:
+            return alias[e.id]
         if isinstance(e, ast.Attribute) and e.attr == 'parent':
             r = ref(e.value)
             return f'(.parent {r})' if r else None
@@ -906,10 +910,29 @@ def read_find(fn):
             if u == 'self.pre_order':
                 pre.add(st.targets[0].id)
                 return prog(rest, k)
+        if isinstance(st, ast.Assign) and len(st.targets) == 1 and isinstance(st.targets[0], ast.Name) and node[0] \
+                and st.targets[0].id != node[0] and ref(st.value) is not None:
+            # a local naming a node reached from the found one (`parent = node.parent`)
+            alias[st.targets[0].id] = ref(st.value)
+            return prog(rest, k)
         if isinstance(st, ast.If):
-            kr = prog(rest, k)
             t = ast.unparse(st.test)
             body = list(st.body)
+            # early exit: `if not len(pre) > position: return …` followed by the in-range part
+            neg = [f'not len({p_}) > {pos}' for p_ in pre] + [f'len({p_}) <= {pos}' for p_ in pre] + [f'{pos} >= len({p_})' for p_ in pre] \
+                + [f'not {pos} < len({p_})' for p_ in pre]
+            if t in neg and not st.orelse and body and isinstance(body[-1], ast.Return) and rest \
+                    and isinstance(rest[0], ast.Assign) and len(rest[0].targets) == 1 and isinstance(rest[0].targets[0], ast.Name) \
+                    and any(ast.unparse(rest[0].value) == f'{p_}[{pos}]' for p_ in pre):
+                out_branch = prog(body, k)
+                node[0] = rest[0].targets[0].id
+                return f'(.ifInRange {prog(rest[1:], k)} {out_branch})'
+            # `if not node.type == 'X': …return` followed by the X part (a jump branch in normal form)
+            if node[0] and not st.orelse and body and isinstance(body[-1], ast.Return):
+                for ty in ('TERMINAL', 'FUNCTION'):
+                    if t in (f"not {node[0]}.type == '{ty}'", f"{node[0]}.type != '{ty}'"):
+                        return f"(.ifType {'true' if ty == 'TERMINAL' else 'false'} {prog(rest, k)} {prog(body, k)})"
+            kr = prog(rest, k)
             if any(t == f'len({p_}) > {pos}' for p_ in pre) or any(t == f'{pos} < len({p_})' for p_ in pre):
                 if body and isinstance(body[0], ast.Assign) and len(body[0].targets) == 1 and isinstance(body[0].targets[0], ast.Name) \
                         and any(ast.unparse(body[0].value) == f'{p_}[{pos}]' for p_ in pre):
